@@ -172,7 +172,12 @@ def run(prop, tier, seed, replay=None):
                         for key in sorted(seen):
                             c = json.loads(key)
                             by_func.setdefault(json.dumps(c['func']), []).append(c['lin'])
+                        mcap = len(todo_rule) + (600 if tier == 'quick' else 1500)
                         for fkey in sorted(by_func):
+                            # (rank <= 4, and a cap: the chain search of the trace specification over a grammar that
+                            #  holds several chains of rank 5 with shared Markov labels ran for more than half an hour)
+                            if len(json.loads(fkey)) - 1 > 4 or len(todo_rule) >= mcap:
+                                continue
                             lins = by_func[fkey]
                             rnd.shuffle(lins)
                             i = 0
